@@ -11,7 +11,10 @@ import (
 	"fmt"
 	"math/rand"
 	"os"
+	"runtime"
+	"runtime/debug"
 	"sort"
+	"strconv"
 	"strings"
 	"sync"
 	"time"
@@ -89,8 +92,9 @@ func main() {
 		out := fs.String("out", "", "output file (canonical lines)")
 		props := fs.String("props", "", "property oracle result file")
 		stats := fs.String("stats", "", "stats json file")
+		resume := fs.Bool("resume", false, "keep the results in <out>.part, skip the cases listed in <out>.blame, run the rest")
 		fs.Parse(os.Args[2:])
-		if err := execCases(*cases, *out, *props, *stats); err != nil {
+		if err := execCases(*cases, *out, *props, *stats, *resume); err != nil {
 			fmt.Fprintln(os.Stderr, err)
 			os.Exit(2)
 		}
@@ -107,7 +111,7 @@ type caseLine struct {
 	raw    string
 }
 
-func execCases(casesPath, outPath, propsPath, statsPath string) error {
+func execCases(casesPath, outPath, propsPath, statsPath string, resume bool) error {
 	f, err := os.Open(casesPath)
 	if err != nil {
 		return err
@@ -131,6 +135,37 @@ func execCases(casesPath, outPath, propsPath, statsPath string) error {
 		return err
 	}
 	results := make([]Result, len(cs))
+	have := make([]bool, len(cs))
+	// results are appended to <out>.part as they finish, so that after a crash of the process
+	// (a panic in a library goroutine, memory exhaustion) the driver can resume with the rest
+	partPath := outPath + ".part"
+	if resume {
+		if pf, err := os.Open(partPath); err == nil {
+			psc := bufio.NewScanner(pf)
+			psc.Buffer(make([]byte, 1<<20), 1<<30)
+			for psc.Scan() {
+				var rec struct {
+					I int
+					R Result
+				}
+				if json.Unmarshal(psc.Bytes(), &rec) == nil && rec.I >= 0 && rec.I < len(cs) {
+					results[rec.I], have[rec.I] = rec.R, true
+				}
+			}
+			pf.Close()
+		}
+		if bf, err := os.ReadFile(outPath + ".blame"); err == nil {
+			for _, tok := range strings.Fields(string(bf)) {
+				if i, err := strconv.Atoi(tok); err == nil && i >= 0 && i < len(cs) && !have[i] {
+					results[i], have[i] = Result{Out: "process-crash"}, true
+				}
+			}
+		}
+	} else {
+		os.Remove(partPath)
+	}
+	partF, _ := os.OpenFile(partPath, os.O_APPEND|os.O_CREATE|os.O_WRONLY, 0o644)
+	var partMu sync.Mutex
 	// journal of started / finished cases: if a library goroutine panics the whole process dies,
 	// and the driver finds the in-flight cases here
 	jf, _ := os.Create(outPath + ".journal")
@@ -150,9 +185,18 @@ func execCases(casesPath, outPath, propsPath, statsPath string) error {
 		if p < 1 {
 			p = 1
 		}
+		if v := os.Getenv("VERIF_PAR"); v != "" {
+			// the driver lowers the parallelism when a crash could not be pinned on one case
+			if n, err := strconv.Atoi(v); err == nil && n >= 1 && n < p {
+				p = n
+			}
+		}
 		sems[name] = make(chan struct{}, p)
 	}
 	for i := range cs {
+		if have[i] {
+			continue
+		}
 		e, ok := engines[cs[i].engine]
 		if !ok {
 			results[i] = Result{Out: "bad-engine"}
@@ -170,7 +214,22 @@ func execCases(casesPath, outPath, propsPath, statsPath string) error {
 				fields = append([]string{cs[i].id}, fields...)
 			}
 			results[i] = safeExec(e, fields)
+			if os.Getenv("VERIF_PAR") == "1" {
+				// sequential fallback after an unattributable crash: give back what the last case
+				// allocated, so that a crash now belongs to the case that is running
+				runtime.GC()
+				debug.FreeOSMemory()
+			}
 			journal("E", i)
+			if partF != nil {
+				b, _ := json.Marshal(struct {
+					I int
+					R Result
+				}{i, results[i]})
+				partMu.Lock()
+				partF.Write(append(b, '\n'))
+				partMu.Unlock()
+			}
 		}(i, e)
 	}
 	wg.Wait()
